@@ -231,6 +231,9 @@ class DBusClientConnection (txdbus.protocol.BasicDBusProtocol):
 
         def add(k, v):
             if v is not None:
+                # inside quotes an apostrophe ends the quote: it is written
+                # as '\'' (close quote, escaped apostrophe, open quote)
+                v = str(v).replace("'", "'\\''")
                 l.append(f"{k}='{v}'")
 
         add('type', mtype)
